@@ -94,6 +94,7 @@ func runC01(c *Ctx) {
 	c.Fields(r5, pub, "invalid_uri reply", "wamp.Error", invalidURI, map[string]string{
 		"Request": `^%msg\.Request$`, "Type": `^call:wamp\.\(\*Publish\)\.MessageType\(%msg\)$`,
 	}, 1)
+	ruleURIPatterns(c, r5) // "valid URI" is what the six patterns and their dispatch say
 	c.R.Floor(r5, 8)
 
 	// R6: stable subscription id
